@@ -100,3 +100,35 @@ pub use self::transform::Translation;
 
 /// Storage container for low level point data.
 pub type RawValues = Vec<RecordValue>;
+
+/// Verification hooks: re-exports of crate-private building blocks.
+/// Only compiled with `--cfg e57_verif`; the normal build is unchanged.
+#[cfg(e57_verif)]
+#[doc(hidden)]
+pub mod verif {
+    pub use crate::bitpack::BitPack;
+    pub use crate::bs_read::ByteStreamReadBuffer;
+    pub use crate::bs_write::ByteStreamWriteBuffer;
+    pub use crate::cv_section::CompressedVectorSectionHeader;
+    pub use crate::packet::{DataPacketHeader, PacketHeader};
+    pub use crate::paged_reader::PagedReader;
+    pub use crate::paged_writer::PagedWriter;
+    pub use crate::queue_reader::QueueReader;
+
+    #[cfg(not(feature = "crc32c"))]
+    pub use crate::crc32::Crc32;
+
+    /// Number of bits one value of this data type occupies in its byte stream.
+    pub fn bit_size(data_type: &crate::RecordDataType) -> usize {
+        data_type.bit_size()
+    }
+
+    /// Serialize one value into a byte stream buffer.
+    pub fn write_value(
+        data_type: &crate::RecordDataType,
+        value: &crate::RecordValue,
+        buffer: &mut ByteStreamWriteBuffer,
+    ) -> crate::Result<()> {
+        data_type.write(value, buffer)
+    }
+}
